@@ -1911,6 +1911,9 @@ class Scheduler:
             )
             if check_valid == CacheCheckValid.FULL:
                 job.calc_subtree_tasks()
+                # A final result served by CSE comes without child jobs, so the tasks beneath
+                # it are only known from the recorded call node.
+                job.subtree_tasks |= self._get_subtree_tasks(job)
             else:
                 # If we did ultimate reduction caching, then we need to query the
                 # backend to determine subtree tasks.
